@@ -878,11 +878,18 @@ func (r *run) store(s *State, l ast.Expr, v Val, rhs ast.Expr, pos token.Pos) {
 		}
 		return
 	}
+	// label binding: a store into the top map of the variable stack, through a local alias or directly
+	if ix, ok := l.(*ast.IndexExpr); ok {
+		if base := r.eval(s, ix.X); base.K == "map" && base.A == "vstack-top" {
+			s.event("bind", pos, in.exprText(ix.Index), v.String(), base.B, fmt.Sprint(s.VS))
+			return
+		}
+	}
 	if p := in.pPath(l); p != "" {
 		r.pWriteVal(s, p, l, rhs, v, pos)
 		return
 	}
-	// index into a tracked local map (label binding)
+	// index into a tracked local map
 	if ix, ok := l.(*ast.IndexExpr); ok {
 		base := r.eval(s, ix.X)
 		if base.K == "map" && base.A == "vstack-top" {
@@ -1350,6 +1357,23 @@ func (r *run) assume(s *State, e ast.Expr, val bool) {
 			r.assume(s, x.X, false)
 			r.assume(s, x.Y, false)
 		}
+		// a false conjunction with one operand known true makes the other false (dually for a true disjunction)
+		if x.Op == token.LAND && !val {
+			switch {
+			case r.cond(s, x.X).IsTrue():
+				r.assume(s, x.Y, false)
+			case r.cond(s, x.Y).IsTrue():
+				r.assume(s, x.X, false)
+			}
+		}
+		if x.Op == token.LOR && val {
+			switch {
+			case r.cond(s, x.X).IsFalse():
+				r.assume(s, x.Y, true)
+			case r.cond(s, x.Y).IsFalse():
+				r.assume(s, x.X, true)
+			}
+		}
 	case *ast.Ident:
 		if o := in.Info.ObjectOf(x); o != nil {
 			if v, ok := s.Env[o]; ok && v.K == "bool" {
@@ -1489,6 +1513,10 @@ func (r *run) applySummary(s *State, c *ast.CallExpr, site string, sum *Result) 
 					ne.Vals = append([]Val(nil), ne.Vals...)
 				}
 				ne.Vals[i] = mapVal(v)
+			}
+			// a read() the helper performs at the position it was entered with inherits the caller's end-of-input fact
+			if ev.Kind == "read" && len(ne.Args) > 0 && ne.Args[0] != "notEOF" && ev.Pt == Entry && s.NotEOF {
+				ne.Args[0] = "notEOF"
 			}
 			// cap like State.event
 			cnt := 0
